@@ -275,6 +275,8 @@ class Policy:
     def should_inline(self, caller, callee, depth):
         if callee.ident() in self.keep:
             return False
+        if callee.kind == "Plumbing":
+            return (self.level in ("op", "prim") or callee.ident() in self.inline_extra) and depth < self.max_depth
         if self.is_accessor(callee):
             return True
         if self.level == "none":
@@ -311,6 +313,7 @@ class Exec:
         self._loopinfo = {}
         self.loop_entries = []      # (body ident, head, {local: (value before the loop, havoc term)})
         self.stop = None            # (frame depth, blocks): leaving these blocks at that depth ends the run ("exit",)
+        self.closure_subst = {}     # closure body key -> type substitution of the frame that created the closure value
 
     # ------------------------------------------------------------ loops
     def loop_info(self, mir):
@@ -447,9 +450,9 @@ class Exec:
         return out
 
     # ------------------------------------------------------------ entry
-    def run_body(self, body, args=None):
+    def run_body(self, body, args=None, subst=None):
         """Evaluate `body` with symbolic parameters.  Reference parameters point to symbolic
-        pointees mk("param", i)."""
+        pointees mk("param", i).  `subst`: type arguments for a generic body."""
         COVERED.add(body.ident())
         st = State()
         mir = body.mir
@@ -457,13 +460,19 @@ class Exec:
         for i in range(len(mir["locals"])):
             locs[i] = st.alloc()
         fr = Frame(body, mir, locs, None, 0)
+        if subst:
+            fr.subst = dict(subst)
         st.frames.append(fr)
         self.param_locs = {}
         n = mir["arg_count"]
         for i in range(1, n + 1):
             ty = F.norm_ty(mir["locals"][i]["ty"])
             if args is not None and args[i - 1] is not None:
-                st.store[locs[i]] = args[i - 1]
+                if ty.startswith("&") and tag(args[i - 1]) not in ("ref", "vref"):
+                    pl = st.alloc(); st.store[pl] = args[i - 1]      # a value given for a by-reference parameter
+                    st.store[locs[i]] = mk("ref", pl, ())
+                else:
+                    st.store[locs[i]] = args[i - 1]
             elif ty.startswith("&"):
                 pl = st.alloc()
                 st.store[pl] = mk("param", i - 1)
@@ -652,6 +661,14 @@ class Exec:
         if "promoted" in c:
             pm = fr.body.promoted[c["promoted"]]
             return self.eval_promoted(st, fr, pm)
+        if v is None and fr.subst.get("Self") and c.get("item"):
+            # an associated constant of the trait, used in a provided method that was entered for a known Self
+            trait_path, _, cname = F.norm_path(c["item"]).rpartition("::")
+            selfty = F.norm_ty(fr.subst["Self"])
+            for c2 in self.facts.consts:
+                cx = c2.get("ctx") or {}
+                if cx.get("name") == cname and F.norm_path(cx.get("trait", "")) == trait_path and F.norm_ty(cx.get("self_ty", "")) == selfty and c2.get("val") is not None:
+                    return self.const_operand(st, fr, {"ty": c2["ty"], "val": c2["val"], "item": c2["path"]})
         if v is None:
             raise Unsupported("unevaluated constant %s" % c.get("item"))
         k = v.get("k")
@@ -845,6 +862,7 @@ class Exec:
             if "array" in k:
                 return mk("agg", ("array",), ops)
             if "closure" in k:
+                self.closure_subst[k["key"]] = fr.subst
                 return mk("agg", ("closure", k["key"]), ops)
             raise Unsupported("aggregate %r" % (k,))
         if "discr" in rv:
@@ -883,6 +901,31 @@ class Exec:
             return f
         d = F.norm_path(f["def"])
         trait, _, meth = d.rpartition("::")
+        if re.match(r"^core::ops(::function)?::Fn(Once|Mut)?::call(_once|_mut)?$", d):
+            # calling a value of a known closure / fn-item type
+            m = re.match(r"^(?:&(?:mut )?)*\{closure@(KEY:[^}]+)\}", args[0].strip())
+            if m:
+                cb = self.facts.closure_at.get(m.group(1))
+                if cb is not None:
+                    return {"def": f["def"], "args": args, "res": {"def": cb.path, "key": cb.key, "args": [], "local": True}}
+            m = re.match(r"^fn\(.*\{(.+)\}$", args[0].strip())
+            if m:
+                inner = F.norm_path(m.group(1))
+                b = self.facts.get(inner)
+                if b is None and inner.startswith("<") is False:
+                    b = self.facts.get("fn:" + inner.split("::")[-1]) if "::" in inner else None
+                if b is not None:
+                    return {"def": f["def"], "args": args, "res": {"def": b.path, "key": b.key, "args": [], "local": True, "fnitem": True}}
+                mi = re.match(r"^<(.+) as core::convert::Into<(.+)>>::into$", inner)
+                if mi:
+                    return {"def": inner, "args": [mi.group(1), mi.group(2)], "spread": True,
+                            "res": {"def": "<T as core::convert::Into<U>>::into", "args": [mi.group(1), mi.group(2)], "local": False}}
+                mf = re.match(r"^<(\w+) as core::convert::From<(\w+)>>::from$", inner)
+                if mf and (mf.group(1) in INT_BITS or mf.group(1) == "f64") and (mf.group(2) in INT_BITS or mf.group(2) == "f32"):
+                    d2 = "core::convert::num::<impl core::convert::From<%s> for %s>::from" % (mf.group(2), mf.group(1))
+                    return {"def": d2, "args": [], "spread": True, "res": {"def": d2, "args": [], "local": False}}
+                return {"def": inner, "args": [], "spread": True, "res": None}
+            return dict(f, args=args)
         selfty = canon_generic(args[0]); targs = [canon_generic(a) for a in args[1:]]
         if d == "core::convert::Into::into" and len(args) == 2:
             return {"def": f["def"], "args": args, "res": {"def": "<T as core::convert::Into<U>>::into", "args": args, "local": False}}
@@ -1083,6 +1126,17 @@ class Exec:
                 return self.cast("IntToInt", T, U, self.deref_value(st, args[0]))
             if T in INT_BITS and U == "f64":
                 return self.cast("IntToFloat", T, U, self.deref_value(st, args[0]))
+            if T == "f32" and U == "f64":
+                return self.cast("FloatToFloat", T, U, self.deref_value(st, args[0]))
+        if base in ("<core::cmp::Ordering as core::cmp::PartialEq>::eq", "<core::cmp::Ordering as core::cmp::PartialEq>::ne") and len(args) == 2:
+            # a field-less enum: equality of discriminants (Less = -1, Equal = 0, Greater = 1 as i8)
+            def od(v):
+                v = self.deref_value(st, v)
+                if tag(v) == "agg" and v[1][0] == "adt" and v[1][1].endswith("Ordering"):
+                    return mk_const("i8", {"Less": 255, "Equal": 0, "Greater": 1}[v[1][3]])
+                return mk("discr", v)
+            c = mk("cmp", "eq", "i8", od(args[0]), od(args[1]))
+            return c if base.endswith("::eq") else mk("not", c)
         if base == "<core::option::Option<T> as core::default::Default>::default" and not args:
             return mk("agg", ("adt", "core::option::Option", 0, "None"), ())
         if base == "<f64 as core::default::Default>::default":
@@ -1100,6 +1154,16 @@ class Exec:
         fdesc = t["f"]
         if fdesc.get("res") is None and fr.subst:
             fdesc = self.resolve_generic(fr, fdesc)
+            if fdesc.get("spread") and len(args) == 2:
+                # Fn*::call*(fn item, (a, b, ..)) on a foreign function: it takes the tuple's components
+                tup = args[1]
+                if tag(tup) == "ref":
+                    tup = self.load(st, tup[1], tup[2])
+                args = list(tup[2]) if tag(tup) == "agg" else []
+        if fr.subst and fdesc.get("res") and fdesc["res"].get("args"):
+            # a resolved callee inside an inlined generic helper: its type arguments are those of the instance
+            r0 = fdesc["res"]
+            fdesc = dict(fdesc, res=dict(r0, args=[subst_ty(a, fr.subst) for a in r0["args"]]))
         name, callee, r = self.callee_name(fdesc)
         if callee is None:
             pv = self.primitive_foreign(st, name, r, args)
@@ -1112,8 +1176,20 @@ class Exec:
                     self.write_place(st, fr, t["dest"], tf[1])
                     return None
                 callee = tf[1]
+            elif r is not None and not r.get("local"):
+                pb = self.facts.plumbing.get(F.norm_path(r["def"]))
+                if pb is not None and len(args) == pb.mir["arg_count"] and self.policy.should_inline(fr.body, pb, fr.depth):
+                    callee = pb
+        if callee is not None and r is not None and r.get("fnitem") and len(args) == 2:
+            # Fn*::call*(fn item, (a, b, ..)): the callee takes the tuple's components
+            tup = args[1]
+            if tag(tup) == "ref":
+                tup = self.load(st, tup[1], tup[2])
+            items = list(tup[2]) if tag(tup) == "agg" else ([] if tag(tup) == "unit" else None)
+            if items is not None:
+                args = items
         if callee is not None:
-            depth_same = sum(1 for f in st.frames if f.body is callee)
+            depth_same = sum(1 for f in st.frames if f.body is callee) if callee.kind != "Plumbing" else 0
             if depth_same and self.hooks is not None and getattr(self.hooks, "recursion_limit", 0) > depth_same \
                     and not callee.reachable and callee.ident() not in self.policy.keep:
                 depth_same = 0      # bounded re-entry of a private recursive helper (decided by the hooks' facts)
@@ -1126,13 +1202,16 @@ class Exec:
                 locs = {i: st.alloc() for i in range(len(mir["locals"]))}
                 nf = Frame(callee, mir, locs, (t["dest"], t["t"]), fr.depth + 1)
                 if callee.kind == "Closure":
-                    nf.subst = fr.subst
+                    nf.subst = self.closure_subst.get(callee.key, {})
                 elif callee.generics and r is not None and len(callee.generics) == len(r.get("args", [])):
                     nf.subst = {g: subst_ty(a, fr.subst) for g, a in zip(callee.generics, r["args"])}
                 via_fn_trait = callee.kind == "Closure" and "f" in t and re.search(r"ops::function::Fn(Mut|Once)?::call(_mut|_once)?$|ops::Fn(Mut|Once)?::call(_mut|_once)?$", F.norm_path(t["f"]["def"]))
                 if callee.kind == "Closure" and len(args) == 2 and (via_fn_trait or len(args) != mir["arg_count"]):
-                    # Fn*/FnMut/FnOnce::call*(closure, (a, b, ..)): spread the argument tuple
-                    tup = self.deref_value(st, args[1])
+                    # Fn*/FnMut/FnOnce::call*(closure, (a, b, ..)): spread the argument tuple (its components stay what
+                    # they are: a `&T` argument remains a reference)
+                    tup = args[1]
+                    if tag(tup) == "ref":
+                        tup = self.load(st, tup[1], tup[2])
                     items = list(tup[2]) if tag(tup) == "agg" else ([] if tag(tup) == "unit" else None)
                     if items is not None and 1 + len(items) == mir["arg_count"]:
                         env_arg = args[0]
@@ -1147,7 +1226,8 @@ class Exec:
                     raise Unsupported("arity mismatch calling %s" % callee.ident())
                 for i, a in enumerate(args):
                     st.store[locs[i + 1]] = a
-                COVERED.add(callee.ident())
+                if callee.kind != "Plumbing":
+                    COVERED.add(callee.ident())
                 st.frames.append(nf)
                 return ("enter", 0)
             return self.opaque_call(st, fr, t, callee.ident(), args, callee)
